@@ -123,3 +123,62 @@ def weighted(rng, items):
         if x < acc:
             return v
     return items[-1][0]
+
+
+# ------------------------------------------------------------------ scratch
+# One scratch root per check invocation, created and removed by the process
+# that runs the batch (sim.runner.main); every worker gets one sub-directory
+# that its forked block children share (blocks of a worker run one after the
+# other).  Children leave through os._exit, so nothing may depend on their
+# atexit handlers.
+_SCRATCH = {'root': None, 'dir': None, 'own': None}
+
+
+def scratch_base():
+    base = os.environ.get('VERIF_SCRATCH')
+    if base:
+        os.makedirs(base, exist_ok=True)
+        return base
+    return '/dev/shm' if os.path.isdir('/dev/shm') else None
+
+
+def make_scratch_root():
+    import tempfile
+    _SCRATCH['root'] = tempfile.mkdtemp(prefix='verif-run-',
+                                        dir=scratch_base())
+    return _SCRATCH['root']
+
+
+def drop_scratch_root():
+    import shutil
+    if _SCRATCH['root']:
+        shutil.rmtree(_SCRATCH['root'], ignore_errors=True)
+        _SCRATCH['root'] = None
+        _SCRATCH['dir'] = None
+
+
+def claim_worker_scratch():
+    """Called once in every process that forks block children."""
+    if _SCRATCH['root']:
+        d = os.path.join(_SCRATCH['root'], 'w%d' % os.getpid())
+        os.makedirs(d, exist_ok=True)
+        _SCRATCH['dir'] = d
+
+
+def scratch_dir(tag):
+    """Directory for check `tag` (exists; contents are the caller's)."""
+    d = _SCRATCH['dir']
+    if d is None:
+        # ad-hoc use outside the runner (selftests, interactive): own
+        # directory, removed at interpreter exit
+        if _SCRATCH['own'] is None or _SCRATCH['own'][0] != os.getpid():
+            import atexit
+            import shutil
+            import tempfile
+            own = tempfile.mkdtemp(prefix='verif-adhoc-', dir=scratch_base())
+            atexit.register(shutil.rmtree, own, True)
+            _SCRATCH['own'] = (os.getpid(), own)
+        d = _SCRATCH['own'][1]
+    out = os.path.join(d, tag)
+    os.makedirs(out, exist_ok=True)
+    return out
